@@ -569,6 +569,40 @@ def _small_scope(tier):
                 for declared in (False, True):
                     yield _xf(1, t, ids, _cover(t, 1) if declared else None, 0, None, False,
                               {"name": "swizzle", "order": list(order)}, pre)
+    # four and five ranks with a DISTINCT declared size per rank: flatten / merge at every depth x
+    # levels (up to levels = 3 / 4) x style, and unflatten after the tuple / pair flattens -- shape and
+    # coordinates must follow the same re-arrangement
+    deep = {4: [[[0, [[1, [[2, [[3, 1], [5, 2]]]]], [2, [[0, [[4, 3]]]]]]], [1, [[3, [[1, [[0, 4]]]]]]]], []],
+            5: [[[1, [[0, [[2, [[3, [[4, 1], [6, 2]]]]]]]]], [2, [[3, [[0, [[1, [[5, 3]]]]]]]]]]]}
+    sizes = {4: [3, 5, 4, 7], 5: [4, 5, 3, 6, 8]}
+    ids5 = IDS + ["H"]
+    for d in (4, 5):
+        ids = ids5[:d]
+        for t in deep[d]:
+            for sh in (sizes[d], None):
+                for k in range(d - 1):
+                    for levels in range(1, d - k):
+                        for st in STYLES:
+                            i += 1
+                            yield _xf(d, t, ids, sh, 7 if (i & 1) else 0, None, bool(i & 2),
+                                      {"name": "merge", "k": k, "levels": levels, "style": st})
+                        for st in ("tuple", "pair", "linear"):
+                            i += 1
+                            yield _xf(d, t, ids, sh, 0, None, False,
+                                      {"name": "flatten", "k": k, "levels": levels, "style": st})
+                        for st in ("tuple", "pair"):
+                            pre = [{"name": "flatten", "k": k, "levels": levels, "style": st}]
+                            for ul in sorted({1, levels}):
+                                yield _xf(d, t, ids, sh, 0, None, False,
+                                          {"name": "unflatten", "k": k, "levels": ul}, pre)
+                if d == 4:
+                    for order in itertools.permutations(ids):
+                        yield _xf(d, t, ids, sh, 0, None, False, {"name": "swizzle", "order": list(order)})
+                    for k in range(d - 1):
+                        yield _xf(d, t, ids, sh, 0, None, False, {"name": "swap", "k": k})
+                    for k in range(d):
+                        yield _xf(d, t, ids, sh, 0, None, False,
+                                  {"name": "split", "kind": "uniform", "step": 2, "k": k, "depthkw": True})
     # lazy results
     fa = [{"c": [1, 3], "shape": 6, "act": [1, 5], "id": "A"}, {"c": [0, 2, 4], "shape": None, "act": None, "id": None},
           {"c": [2, 3], "shape": 5, "act": None, "id": "A"}, {"c": [], "shape": None, "act": None, "id": "A"},
